@@ -3,7 +3,9 @@
    decide whether a disagreement lies in a listed finding class.                                   *)
 open Common
 
-let w64 = Zar.of_int 64
+(* the word size of the answering build: every `ok` answer of the harness ends in `wb=<bits>` (CONFIGS default / w32);
+   the word-level and value-level as-is models are run at exactly that size *)
+let wcur = ref (Zar.of_int 64)
 let zi = Zar.of_int
 
 (* text / bytes: "x" ^ hex *)
@@ -58,18 +60,23 @@ let words_limit = try int_of_string (Sys.getenv "C07_WORDS_LIMIT") with _ -> 700
 
 let judge op args got =
   let arg i = List.nth args i in
+  let bits = List.fold_left (fun acc t -> if String.length t > 3 && String.sub t 0 3 = "wb=" then int_of_string (String.sub t 3 (String.length t - 3)) else acc) 64 got in
+  wcur := Zar.of_int bits;
+  let got = List.filter (fun t -> not (String.length t > 3 && String.sub t 0 3 = "wb=") && t <> "dbg") got in
+  let wtag = " wb=" ^ string_of_int bits in
+  ignore wtag;
   match op with
   | "fmt" ->
       let ty = arg 0 and k = kind_of (arg 1) and width = Zar.of_string_base 16 (arg 3) in
       let f = flags_of (arg 2) width in
       let v0 = z (arg 4) in
       let v = if ty = "u" then Zar.abs v0 else v0 in
-      let spec = Model.fmt_spec k f v and asis = Model.fmt_asis w64 k f v in
+      let spec = Model.fmt_spec k f v and asis = Model.fmt_asis !wcur k f v in
       (* the same entry point read through the regenerated trait tables (IoFmt3Model) *)
-      let asis_t = Model.fmt_tables_asis w64 (if ty = "u" then Zar.zero else Zar.one) k f v in
+      let asis_t = Model.fmt_tables_asis !wcur (if ty = "u" then Zar.zero else Zar.one) k f v in
       (* ... and over the word-level converters (IoBigModel: word loops, C01's pow/sqr/mul and C02's div_rem models);
          the list-based kernels are slow, very long values are left to the value-level model *)
-      let words_ok t = if Zar.numbits v > words_limit then true else res_text (Model.fmt_words_asis w64 k f v) = t in
+      let words_ok t = if Zar.numbits v > words_limit then true else res_text (Model.fmt_words_asis !wcur k f v) = t in
       (* DigitWriter + SWAR (IoWriter.dw_text: 8-byte chunks, the DigitCase of the regenerated tables, the digits cut into
          write calls of 19): the digit characters at the end of an unpadded text *)
       let writer_ok o =
@@ -83,16 +90,19 @@ let judge op args got =
           match case_id with
           | None -> false
           | Some (r, c) ->
-              let ds = Model.digits_asis w64 r (Zar.abs v) in
+              let ds = Model.digits_asis !wcur r (Zar.abs v) in
               let chars = tok_of_bytes (Model.dw_text (zi 8) (Model.case_offset c) (zi 19) ds) in
               let cl = String.length chars - 1 and ol = String.length o in
               ol - cl >= 1 && String.sub o (ol - cl) cl = String.sub chars 1 cl
         end in
+      (* the printer read through the REGENERATED dispatch functions (IoDispatch4Model.digits_gen) *)
+      let gen_ok () = let r = Model.kind_radix k in
+        not (Model.radix_valid r) || Model.digits_gen !wcur r (Zar.abs v) = Model.digits_asis !wcur r (Zar.abs v) in
       (match spec with
        | Model.Ok l ->
            let t = tok_of_bytes l in
-           let fid = same (match got with "ok" :: o :: _ -> res_text asis = "ok " ^ o && res_text asis_t = "ok " ^ o && words_ok ("ok " ^ o) && writer_ok o | _ -> false) in
-           let cls = "cls=" ^ arg 1 ^ (if Zar.sign v < 0 then "-neg" else "") in
+           let fid = same (match got with "ok" :: o :: _ -> res_text asis = "ok " ^ o && res_text asis_t = "ok " ^ o && words_ok ("ok " ^ o) && writer_ok o && gen_ok () | _ -> false) in
+           let cls = "cls=" ^ arg 1 ^ (if Zar.sign v < 0 then "-neg" else "") ^ (if bits = 64 then "" else "-w" ^ string_of_int bits) in
            (match got with
             | [ "ok"; o; r; p ] when o = t && r = t && (p = "na" || p = t) -> pass ~extra:(fid ^ " " ^ cls) ()
             | [ "ok"; o; r; p ] when o = t && r = t -> fail ("spec-differs-from-primitive " ^ t)
@@ -106,12 +116,16 @@ let judge op args got =
       let v0 = z (arg 3) in
       let v = if ty = "u" then Zar.abs v0 else v0 in
       let plus = String.contains sp '+' and alt = String.contains sp '#' in
-      let dpw = fst (Model.radix_info w64 (zi 10)) in
-      let t = tok_of_bytes (Model.debug_spec dpw (Zar.shift_left Zar.one 128) plus alt v) in
-      let asis = res_text (Model.debug_asis w64 Model.gen_dbg_lits (Model.ilog_exact (zi 10)) plus alt v) in
-      let cls = "cls=dbg-" ^ (if Zar.numbits v <= 64 then "word" else if Zar.numbits v <= 128 then "dword" else "large") ^ (if alt then "-alt" else "") in
+      let dpw = fst (Model.radix_info !wcur (zi 10)) in
+      let t = tok_of_bytes (Model.debug_spec dpw (Zar.shift_left Zar.one (2 * bits)) plus alt v) in
+      let asis = res_text (Model.debug_asis !wcur Model.gen_dbg_lits (Model.ilog_exact (zi 10)) plus alt v) in
+      (* ... and with C12's log_word_base model inside (IoDebugLwbModel), run from a lowered estimate *)
+      let asis_lwb = res_text (Model.debug_lwb_asis !wcur Model.gen_dbg_lits Model.est_under plus alt v) in
+      let cls = "cls=dbg-" ^ (if Zar.numbits v <= bits then "word" else if Zar.numbits v <= 2 * bits then "dword" else "large") ^ (if alt then "-alt" else "")
+                ^ (if bits = 64 then "" else "-w" ^ string_of_int bits) in
       (match got with
-       | [ "ok"; o; p ] when o = t && (p = "na" || p = t) -> pass ~extra:(same (asis = "ok " ^ o) ^ " " ^ cls) ()
+       (* the primitive's `{:?}` shows all digits: comparable only below a double word of the answering build *)
+       | [ "ok"; o; p ] when o = t && (p = "na" || p = t || Zar.numbits v > 2 * bits) -> pass ~extra:(same (asis = "ok " ^ o && asis_lwb = "ok " ^ o) ^ " " ^ cls) ()
        | [ "ok"; o; _ ] when o = t -> fail ("spec-differs-from-primitive " ^ t)
        | _ -> fail ("ok " ^ t))
   | "serde" ->
@@ -123,7 +137,7 @@ let judge op args got =
   | "deser" ->
       let signed = arg 0 = "i" and text = bytes_of_tok (arg 1) in
       let spec = Model.from_str_prefix_gen Model.body_spec signed (zi 10) text in
-      let asis = Model.from_str_prefix_gen (Model.body_asis w64) signed (zi 10) text in
+      let asis = Model.from_str_prefix_gen (Model.body_asis !wcur) signed (zi 10) text in
       let show = function Model.Ok (v, _) -> "ok " ^ hx v | Model.Err _ -> "err" | _ -> "other" in
       let g = (match got with "err" :: _ -> "err" | l -> String.concat " " l) in
       if show spec = g then pass ~extra:(same (show asis = g) ^ " cls=deser-" ^ (match spec with Model.Ok _ -> "valid" | _ -> "error")) () else fail (show spec)
@@ -132,8 +146,8 @@ let judge op args got =
       let v = if arg 0 = "u" then Zar.abs v0 else v0 in
       let f = flags_of "." Zar.zero in
       expect (res_text (Model.fmt_spec Model.KDisplay f v)) got
-  | "parse" ->
-      let api = arg 0 and radix = Zar.of_string_base 16 (arg 1) and text = bytes_of_tok (arg 2) in
+  | "parse" | "numtr" ->
+      let api = (if op = "numtr" then arg 0 ^ "r" else arg 0) and radix = Zar.of_string_base 16 (arg 1) and text = bytes_of_tok (arg 2) in
       let signed = api.[0] = 'i' in
       let with_radix = api.[1] = 'p' || api.[1] = 'd' in
       let r = if api.[1] = 'r' || api.[1] = 'd' then radix else zi 10 in
@@ -145,11 +159,14 @@ let judge op args got =
       let run body =
         if with_radix then Model.from_str_prefix_gen body signed r text
         else lift (Model.from_str_radix_gen body signed r text) in
-      let spec = run Model.body_spec and asis = run (Model.body_asis w64) in
+      let spec = run Model.body_spec and asis = run (Model.body_asis !wcur) in
       let gots = String.concat " " got in
-      let words_ok = List.length text > words_limit / 3 || show (run (Model.body_words_asis w64)) = gots in
-      let fid = same (show asis = gots && words_ok) in
-      let cls = "cls=" ^ (match spec with Model.Ok _ -> "valid" | Model.Err e -> err_name e | _ -> "other") in
+      let words_ok = List.length text > words_limit / 3 || show (run (Model.body_words_asis !wcur)) = gots in
+      (* the parser read through the REGENERATED dispatch functions (IoDispatch4Model.body_gen) *)
+      let gen_ok = show (run (Model.body_gen !wcur)) = gots in
+      let fid = same (show asis = gots && words_ok && gen_ok) in
+      let cls = "cls=" ^ (if op = "numtr" then "numtraits-" else "") ^ (match spec with Model.Ok _ -> "valid" | Model.Err e -> err_name e | _ -> "other")
+                ^ (if bits = 64 then "" else "-w" ^ string_of_int bits) in
       (match spec with
        | Model.Ok _ -> if show spec = gots then pass ~extra:(fid ^ " " ^ cls) () else fail (show spec)
        | Model.Err _ -> (match got with "err" :: _ -> pass ~extra:(fid ^ " " ^ cls) () | _ -> fail (show spec))
@@ -164,8 +181,8 @@ let judge op args got =
       let spec_le = if signed then Model.to_signed_le_bytes_spec v else Model.to_le_bytes_spec v in
       (* the as-is model of the function actually called: the big-endian functions have their own models *)
       let asis_own = (match signed, le with
-        | true, true -> Model.to_signed_le_bytes_asis w64 v | false, true -> Model.to_le_bytes_asis w64 v
-        | true, false -> Model.to_signed_be_bytes_asis w64 v | false, false -> Model.to_be_bytes_asis w64 v) in
+        | true, true -> Model.to_signed_le_bytes_asis !wcur v | false, true -> Model.to_le_bytes_asis !wcur v
+        | true, false -> Model.to_signed_be_bytes_asis !wcur v | false, false -> Model.to_be_bytes_asis !wcur v) in
       let ord l = if le then l else List.rev l in
       let want = "ok " ^ tok_of_bytes (ord spec_le) ^ " " ^ hx v in
       (match got with
@@ -185,8 +202,8 @@ let judge op args got =
         | true, true -> Model.le_signed_value bs | true, false -> Model.be_signed_value bs
         | false, true -> Model.le_value bs | false, false -> Model.be_value bs) in
       let asis = (match signed, le with
-        | true, true -> Model.from_signed_le_bytes_asis w64 bs | false, true -> Model.from_le_bytes_asis w64 bs
-        | true, false -> Model.from_signed_be_bytes_asis w64 bs | false, false -> Model.from_be_bytes_asis w64 bs) in
+        | true, true -> Model.from_signed_le_bytes_asis !wcur bs | false, true -> Model.from_le_bytes_asis !wcur bs
+        | true, false -> Model.from_signed_be_bytes_asis !wcur bs | false, false -> Model.from_be_bytes_asis !wcur bs) in
       expect ~extra:(same (Zar.equal asis spec)) ("ok " ^ hx spec) got
   | "to_chunks" ->
       let v = z (arg 0) and cb = Zar.of_string_base 16 (arg 1) in
@@ -194,18 +211,22 @@ let judge op args got =
       else begin
         let cs = Model.to_chunks_spec v cb in
         let want = "ok " ^ hx v ^ " " ^ hx (zi (List.length cs)) ^ String.concat "" (List.map (fun c -> " " ^ hx c) cs) in
-        let asis = (match Model.to_chunks_asis w64 v cb with
-          | Model.Ok l -> "ok " ^ hx (Model.from_chunks_asis w64 cb l) ^ " " ^ hx (zi (List.length l)) ^ String.concat "" (List.map (fun c -> " " ^ hx c) l)
+        let asis = (match Model.to_chunks_asis !wcur v cb with
+          | Model.Ok l -> "ok " ^ hx (Model.from_chunks_asis !wcur cb l) ^ " " ^ hx (zi (List.length l)) ^ String.concat "" (List.map (fun c -> " " ^ hx c) l)
           | _ -> "panic") in
-        expect ~extra:(same (asis = String.concat " " got)) want got
+        (* the word loops of words_to_chunks (IoToChunksModel: slices, mask, C09's shr_in_place on the allocated buffers) *)
+        let words = (match Model.to_chunks_words_z !wcur v cb with
+          | Model.Ok l -> "ok " ^ hx (Model.from_chunks_asis !wcur cb l) ^ " " ^ hx (zi (List.length l)) ^ String.concat "" (List.map (fun c -> " " ^ hx c) l)
+          | _ -> "panic") in
+        expect ~extra:(same (asis = String.concat " " got && words = String.concat " " got) ^ " cls=to_chunks-w" ^ string_of_int bits) want got
       end
   | "from_chunks" ->
       let cb = Zar.of_string_base 16 (arg 0) in
       let cs = List.map z (List.tl args) in
       let spec = Model.from_chunks_spec cb cs in
       (* the word loops of chunks_to_words (IoChunksW: shl_in_place + add_in_place on the allocated buffers) *)
-      let words_ok = (match Model.from_chunks_words_z w64 cb cs with Model.Ok v -> Zar.equal v spec | _ -> false) in
-      expect ~extra:(same (Zar.equal (Model.from_chunks_asis w64 cb cs) spec && words_ok)) ("ok " ^ hx spec) got
+      let words_ok = (match Model.from_chunks_words_z !wcur cb cs with Model.Ok v -> Zar.equal v spec | _ -> false) in
+      expect ~extra:(same (Zar.equal (Model.from_chunks_asis !wcur cb cs) spec && words_ok)) ("ok " ^ hx spec) got
   | _ -> fail ("unknown-op-" ^ op)
 
 let () = serve judge
